@@ -296,9 +296,71 @@ pub fn fill_outcome(out: &mut Outcome, reps: &[(&str, &X2Report)]) {
 }
 
 /// Verbose replay of one execution of a model.
+/// a hand-written trace names its events ("event_names": ["Request(true)", "Drive", ..]): the choice numbers are found by
+/// re-executing the prefix, as the search itself does
+fn choices_from_names<M: Model>(model: &M, names: &[String]) -> Option<Vec<u32>> {
+    let mut choices: Vec<u32> = vec![];
+    for name in names {
+        let mut t = T2::new(&model.cfg(), choices.clone());
+        let mut w = model.init(&mut t);
+        let n = model.n_events();
+        for _ in 0..choices.len() {
+            let enabled: Vec<usize> = (0..n).filter(|&e| model.enabled(&t, &w, e)).collect();
+            let c = t.sh.lock().unwrap().chooser.choose(tag::EVENT, 1 + enabled.len(), true);
+            model.apply(&mut t, &mut w, enabled[c - 1]);
+        }
+        let enabled: Vec<usize> = (0..n).filter(|&e| model.enabled(&t, &w, e)).collect();
+        let pos = enabled.iter().position(|&e| &model.event_name(e) == name);
+        let _ = model.teardown(t, w);
+        match pos {
+            Some(p) => choices.push(p as u32 + 1),
+            None => {
+                println!("event '{}' is not enabled after {:?}", name, &names[..choices.len()]);
+                return None;
+            }
+        }
+    }
+    Some(choices)
+}
+
 pub fn replay_model<M: Model>(model: &M, prop: &'static str, v: &Value) -> bool {
-    let choices: Vec<u32> = v["choices"].as_array().unwrap().iter().map(|x| x.as_u64().unwrap() as u32).collect();
+    let choices: Vec<u32> = match v["event_names"].as_array() {
+        Some(names) => match choices_from_names(model, &names.iter().map(|x| x.as_str().unwrap_or("").to_string()).collect::<Vec<_>>()) {
+            Some(c) => c,
+            None => return false,
+        },
+        None => v["choices"].as_array().unwrap().iter().map(|x| x.as_u64().unwrap() as u32).collect(),
+    };
     let depth = v["depth"].as_u64().unwrap_or(choices.len() as u64) as usize;
+    // the search tears a state down both straight after its events and after the epilogue: a panic in the former shows
+    // only without the epilogue
+    if v["signature"].as_str() == Some("teardown") && v["no_epilogue"].as_bool() != Some(false) {
+        let mut t = T2::new(&model.cfg(), choices.clone());
+        let mut w = model.init(&mut t);
+        let n = model.n_events();
+        for step in 0..depth.min(choices.len()) {
+            if !t.panics.is_empty() {
+                break;
+            }
+            let enabled: Vec<usize> = (0..n).filter(|&e| model.enabled(&t, &w, e)).collect();
+            let c = t.sh.lock().unwrap().chooser.choose(tag::EVENT, 1 + enabled.len(), true);
+            if c == 0 {
+                break;
+            }
+            println!("event {}: {}", step + 1, model.event_name(enabled[c - 1]));
+            model.apply(&mut t, &mut w, enabled[c - 1]);
+        }
+        t.catch_up();
+        println!("--- wire transcript\n{}", t.mon.transcript());
+        println!("--- teardown straight after these events (no epilogue)");
+        let ps = model.teardown(t, w);
+        for p in &ps {
+            println!("  PANIC: {}", p);
+        }
+        if !ps.is_empty() {
+            return true;
+        }
+    }
     let mut t = T2::new(&model.cfg(), choices.clone());
     let mut w = model.init(&mut t);
     let n = model.n_events();
